@@ -68,3 +68,4 @@ pub proof fn lemma_boundary_order(s: Seq<char>, a: int, b: int)
     let kb = boundary_index(s, b);
     if kb < ka { lemma_utf8_len_strict(s, kb, ka); }
 }
+
